@@ -457,3 +457,55 @@ def check_pipeline(model: Model, col, rule: str):
                 writes.append(unparse(x.func))
     col.check(not writes, rule, f"{COMPILER}::Compile leaves the compiler unchanged", "Compile / __RunPass write no attribute of the compiler object or class",
               f"Compile writes {sorted(set(writes))}: what one compilation (its options, its source) did decides how the next one on the same Compiler - or in the same process - is compiled", COMPILER, comp)
+    # a program is rejected only by a pass: every path of Compile that returns None has just seen a pass (a list pass through
+    # __RunPass, lowering, the wasm step) report failure.  The per-property rules decide what the passes accept; a verdict
+    # that comes from anywhere else in the driver is one nobody decided.
+    from .paths import paths
+
+    pass_calls = ("__RunPass", "_Compiler__RunPass", "Process")
+    odd = []
+    nrej = 0
+    for evs, status in paths(comp.body, loop_iters=(1,)):
+        if status != "return":
+            continue
+        rv = evs[-1].node.value
+        if not (rv is None or (isinstance(rv, ast.Constant) and rv.value is None)):
+            continue
+        nrej += 1
+        held = {}
+        for e in evs:
+            if e.kind == "stmt" and isinstance(e.node, ast.Assign) and len(e.node.targets) == 1 and isinstance(e.node.targets[0], ast.Name):
+                held[e.node.targets[0].id] = e.node.value
+        conds = [e for e in evs if e.kind == "cond"]
+        last = conds[-1] if conds else None
+        t = last.node if last is not None else None
+        while isinstance(t, ast.UnaryOp) and isinstance(t.op, ast.Not):
+            t = t.operand
+        if isinstance(t, ast.Name) and t.id in held:
+            t = held[t.id]
+        ok = isinstance(t, ast.Call) and last_attr(t) in pass_calls
+        if not ok and isinstance(last.node if last is not None else None, ast.Compare) and len(last.node.ops) == 1 and isinstance(last.node.ops[0], (ast.Is, ast.IsNot)) \
+                and isinstance(last.node.left, ast.Name) and last.node.left.id in held:
+            # `module = <helper>(..)` read in place: `if module is None: return None`.  The path on which the helper produced
+            # a module and the test still holds is not a path of the program; on the other one the None stands for a pass
+            # that failed earlier on the path
+            bound = held[last.node.left.id]
+            if not (isinstance(bound, ast.Constant) and bound.value is None):
+                nrej -= 1
+                continue
+
+            def failed(e_):
+                n_, v_ = e_.node, e_.val
+                while isinstance(n_, ast.UnaryOp) and isinstance(n_.op, ast.Not):
+                    n_, v_ = n_.operand, not v_
+                if isinstance(n_, ast.Name) and n_.id in held:
+                    n_ = held[n_.id]
+                return isinstance(n_, ast.Call) and last_attr(n_) in pass_calls and not v_
+
+            ok = any(failed(e_) for e_ in conds[:-1])
+        if not ok:
+            odd.append((evs[-1].node, " ".join(unparse(last.node).split())[:70] if last is not None else "<unconditionally>"))
+    col.check(not odd, rule, f"{COMPILER}::Compile rejects only on a pass's verdict", f"{nrej} rejecting path(s), each directly behind a failed pass",
+              (f"Compile returns None under `{odd[0][1]}`, which is not the result of a pass" if odd else "") + ": programs every pass accepts are rejected (or the decision moved out of the passes "
+              "the rules decide)", COMPILER, odd[0][0] if odd else comp)
+    col.floor(rule, "rejecting paths of Compile", nrej, 2)
